@@ -844,6 +844,7 @@ class TextXMetaModel(DebugPrinter):
                     }
                 )
 
+        served_from_repository = model is not None
         if model is None:
             # Read model from file
             if not model_str:
@@ -858,6 +859,11 @@ class TextXMetaModel(DebugPrinter):
                 pre_ref_resolution_callback=kwargs_callback,
                 is_main_model=is_main_model,
             )
+
+        if served_from_repository:
+            # The model was processed when it was loaded. Model processors run
+            # once per loaded file, not once per request.
+            return model
 
         try:
             for p in self._model_processors:
